@@ -3,9 +3,12 @@
    [run_clean repaired h init = true] excludes exactly one history shape: a delete of (series, range)
    executing (from DeleteBegin until its cache step) while an in-flight cache snapshot — begun,
    written, installed but with its WAL segments not yet removed, or retained after a failed
-   flush — holds a point of a selected series inside the range.  That shape is a genuine defect
-   of the code (known finding): [delete_permanent_refuted]. *)
-From Verif Require Import Shard.Engine C01.Kv C01.Facts C01.Dinv C01.Inv C01.Spec C01.Proofs C01.Link C10.Ninv C10.Proofs.
+   flush — holds a point of a selected series inside the range.  That shape was a genuine defect
+   of the pinned code ([delete_permanent_refuted]); the repaired code excludes it with
+   Engine.snapshotMu: a delete and a cache snapshot never overlap ([run_mu], the step-level form
+   of the mutex), and [mutex_makes_histories_clean] shows that every history respecting the mutex
+   is clean, so [delete_permanent] and [delete_exact_mutex] hold without any exclusion. *)
+From Verif Require Import Shard.Engine C01.Kv C01.Facts C01.Dinv C01.Inv C01.Spec C01.Proofs C01.Link C10.Ninv C10.Proofs C10.Mu.
 Open Scope Z_scope.
 
 (* A completed delete removes exactly the points of the selected series inside the inclusive
@@ -41,6 +44,39 @@ Theorem delete_permanent_partial :
 Proof. exact reads_refine_lemma. Qed.
 Print Assumptions delete_permanent_partial.
 
+(* Engine.snapshotMu (held by WriteSnapshot from Cache.Snapshot until the snapshot's WAL
+   segments are removed, and by deleteSeriesRange from its first to its last statement, after
+   writing out a snapshot retained by a failed flush) turns into: DeleteBegin only when no
+   snapshot is in flight or retained, SnapBegin only when no delete is running.  Every history
+   whose steps respect that is clean — for ANY length and interleaving of the other steps. *)
+Theorem mutex_makes_histories_clean :
+  forall (h : list step), run_mu repaired h init = true -> run_clean repaired h init = true.
+Proof. exact (mu_clean_init repaired). Qed.
+Print Assumptions mutex_makes_histories_clean.
+
+(* Permanence, full statement for the code as repaired. *)
+Theorem delete_permanent :
+  forall (h : list step),
+  run_mu repaired h init = true ->
+  let s := run repaired h init in
+  ph (sv s) = Up -> pend (sv s) = PNone -> dstage (sv s) = DIdle ->
+  forall k t, maybe_deleted s k t = true \/ lookup_last t (eng_read_all s k) = glww (effective s) k t.
+Proof. intros h Hmu. apply reads_refine_lemma. apply mu_clean_init. exact Hmu. Qed.
+Print Assumptions delete_permanent.
+
+Theorem delete_exact_mutex :
+  forall (h D : list step) (ss : list key) (lo hi : Z),
+  run_mu repaired (h ++ D) init = true ->
+  let s := run repaired h init in
+  let s' := run repaired D s in
+  ph (sv s) = Up -> pend (sv s) = PNone -> dstage (sv s) = DIdle ->
+  ph (sv s') = Up -> pend (sv s') = PNone -> dstage (sv s') = DIdle ->
+  g_hist s' = g_hist s ++ [(KAck, GDelete ss lo hi)] ->
+  forall k t, maybe_deleted s k t = false ->
+  live s' k t = if sel ss k && in_rng lo hi t then None else live s k t.
+Proof. intros h D ss lo hi Hmu. apply delete_exact_lemma. apply mu_clean_init. exact Hmu. Qed.
+Print Assumptions delete_exact_mutex.
+
 (* ... and in the form of Shard/Spec.v: reads of any range equal [spec_read] of the acknowledged history *)
 Theorem reads_equal_spec :
   forall (h : list step) (U : list key) (k : key) (lo hi : Z),
@@ -63,9 +99,12 @@ Theorem model_meets_exec_spec :
 Proof. exact model_meets_spec_lemma. Qed.
 Print Assumptions model_meets_exec_spec.
 
-(* The excluded shape refutes permanence on the code as it is: Write; SnapBegin; SnapWriteTmp;
-   Delete; SnapRename ... ; crash; recovery — the deleted point is read back, for good.
-   (Corpus entry; replayed on the real store through the verifPoint pause hook.) *)
+(* Why the mutex is needed: the excluded shape refutes permanence when steps may interleave
+   freely — Write; SnapBegin; SnapWriteTmp; Delete; SnapRename ... ; crash; recovery: the deleted
+   point is read back, for good.  The witness does not respect the mutex ([run_mu] = false).
+   (Corpus entry; on the real store the harness issues the delete from a second goroutine at the
+   verifPoint inside WriteSnapshot and observes that it is held back until the snapshot is
+   committed; a delete that completes inside the in-flight snapshot is reported.) *)
 Theorem delete_permanent_refuted :
   (exists h k t, resurrects repaired h k t = true /\ run_clean repaired h init = false) /\
   resurrects repaired witness_inflight wk 1 = true.
@@ -73,6 +112,9 @@ Proof.
   split; [exists witness_inflight, wk, 1; exact inflight_resurrects|]. exact (proj1 inflight_resurrects).
 Qed.
 Print Assumptions delete_permanent_refuted.
+
+Example witness_breaks_mutex : run_mu repaired witness_inflight init = false.
+Proof. vm_compute. reflexivity. Qed.
 
 (* Tombstones are replayed independently: what a file shows for a key at a time is its stored
    value unless SOME tombstone (key', lo, hi) of the file has key' = key and lo <= t <= hi —
@@ -140,6 +182,7 @@ Example delete_nonvacuous :
   let s'' := run repaired nv10_rest s' in
   run_ok repaired (nv10 ++ nv10_del ++ nv10_rest) init = true /\
   run_clean repaired (nv10 ++ nv10_del ++ nv10_rest) init = true /\
+  run_mu repaired (nv10 ++ nv10_del ++ nv10_rest) init = true /\
   g_hist s' = g_hist s ++ [(KAck, GDelete [sk] 2 3)] /\
   eng_read_all s wk = [(1, VInt 10); (2, VInt 20); (3, VInt 30)] /\
   eng_read_all s' wk = [(1, VInt 10)] /\
